@@ -116,7 +116,11 @@ def _pack(dense, fmt, dup, shape=None):
         zr, zc = zr[:2], zc[:2]
         rows = np.concatenate([r, r, zr])
         cols = np.concatenate([c, c, zc])
-        vals = np.concatenate([v * 0.5, v * 0.5, np.zeros(len(zr))])
+        if dup == 2:
+            # parts of opposite sign: 2v + (-v) = v exactly
+            vals = np.concatenate([v * 2.0, -v, np.zeros(len(zr))])
+        else:
+            vals = np.concatenate([v * 0.5, v * 0.5, np.zeros(len(zr))])
         mat = sps.coo_matrix((vals, (rows, cols)), shape=shape)
     else:
         mat = sps.coo_matrix((v, (r, c)), shape=shape)
@@ -137,6 +141,8 @@ class SpecProblem(Problem):
 
     def __init__(self, spec, fmt="coo", dup=False, policy="fresh"):
         self.spec = spec
+        # integer-valued problem data handed over with an integer dtype (linear rows written with int coefficients)
+        self.int_matrices = bool(spec.meta.get("int_matrices"))
         self.fmt = fmt
         self.dup = dup
         self.policy = policy
@@ -237,7 +243,7 @@ class SpecProblem(Problem):
         const = not self.spec.nonlinear_cons
         return self._deliver(
             "cons_jac", x.tobytes(),
-            lambda: _pack(self._cons_jac_dense(x), self.fmt, self.dup), const)
+            lambda: self._intify(_pack(self._cons_jac_dense(x), self.fmt, self.dup)), const)
 
     def lag_hess(self, x, y):
         x = np.array(x, dtype=float)
@@ -245,7 +251,14 @@ class SpecProblem(Problem):
         const = self.spec.is_qp
         return self._deliver(
             "lag_hess", x.tobytes() + y.tobytes(),
-            lambda: _pack(self._lag_hess_dense(x, y), self.fmt, self.dup), const)
+            lambda: self._intify(_pack(self._lag_hess_dense(x, y), self.fmt, self.dup)), const)
+
+    def _intify(self, mat):
+        if self.int_matrices and self.fmt in ("coo", "csr", "csc") and not self.dup:
+            d = mat.data
+            if d.size and np.all(d == np.round(d)) and np.all(np.abs(d) < 2 ** 40):
+                return mat.astype(np.int64)
+        return mat
 
 
 # --------------------------------------------------------------------------- generators
@@ -634,6 +647,27 @@ def gen_ncvx(rng, variant=None):
     return Spec(Q, q, np.zeros((0, n)), [], lb, ub, [], [], x0=x0, meta={"family": "NCVX"})
 
 
+def gen_intqp(rng, n=None):
+    """Convex QP with small integer data; Jacobian and Hessian are handed over with dtype int64."""
+    n = int(rng.integers(2, 7)) if n is None else n
+    m = int(rng.integers(1, n))
+    L = np.tril(rng.integers(-2, 3, size=(n, n))).astype(float)
+    Q = L @ L.T + np.diag(rng.integers(1, 4, size=n)).astype(float)
+    q = rng.integers(-5, 6, size=n).astype(float)
+    A = rng.integers(-3, 4, size=(m, n)).astype(float)
+    for i in range(m):
+        if not A[i].any():
+            A[i, int(rng.integers(0, n))] = 1.0
+    xs = rng.integers(-2, 3, size=n).astype(float)
+    kinds = _choose_kinds(rng, n, VAR_KINDS, [0.4, 0.2, 0.2, 0.2, 0.0])
+    lb, ub = _bounds_around(rng, xs, kinds)
+    cs = A @ xs
+    rk = _choose_kinds(rng, m, ROW_KINDS, [0.2, 0.2, 0.2, 0.2, 0.2])
+    l, u = _row_bounds(rng, cs, rk)
+    x0 = start_point(rng, lb, ub)
+    return Spec(Q, q, A, np.zeros(m), lb, ub, l, u, x0=x0, meta={"family": "INTQP", "xs": xs, "int_matrices": True})
+
+
 FAMILIES = {
     "QP": lambda rng, **kw: gen_qp(rng, **kw),
     "NLP": lambda rng, **kw: gen_qp(rng, nonlin=True, **kw),
@@ -642,6 +676,7 @@ FAMILIES = {
     "UNB": lambda rng, **kw: gen_unb(rng, **kw),
     "DEG": lambda rng, **kw: gen_deg(rng, **kw),
     "NCVX": lambda rng, **kw: gen_ncvx(rng, **kw),
+    "INTQP": lambda rng, **kw: gen_intqp(rng, **kw),
 }
 
 
